@@ -407,12 +407,20 @@ func (b *Bucket) MoveBucket(key []byte, dstBucket *Bucket) (err error) {
 	}
 
 	// remove the sub-bucket from the source bucket
+	opened := b.buckets[string(newKey)]
 	delete(b.buckets, string(newKey))
 	c.node().del(newKey)
 
 	// add te sub-bucket to the destination bucket
 	newValue := cloneBytes(v)
 	curDst.node().put(newKey, newKey, newValue, 0, common.BucketLeafFlag)
+
+	// A sub-bucket that was already opened in this transaction may hold
+	// uncommitted changes; hand it over to the destination so that they are
+	// spilled together with it instead of being dropped.
+	if opened != nil {
+		dstBucket.buckets[string(newKey)] = opened
+	}
 
 	return nil
 }
